@@ -16,12 +16,20 @@ package main
 // property demands (never against the model's prediction of batch boundaries):
 //
 //	pending  = timers registered by a handler response with t > Min(up) whose TimerExpired was not given to the
-//	           handler yet (per timeline: a restore / redeploy from checkpoint n resets it to what it was when
-//	           OperatorCheckpointComplete(n) was called; a deploy from nothing to {})
+//	           handler yet, per timeline.
 //	C10: a TimerExpired must be pending (else: twice / never registered / fired before the checkpoint), not later than
 //	     Min(up), in non-decreasing time; whenever the batch delay has elapsed (Timeout, Finish; every step if
 //	     BatchMax = 1) no pending timer may be at or before Min(up)
 //	C11: ProcessEventBatchRequest.Watermark = Min(up) of the current deployment on every handler call
+//
+// What is pending in a RESTORED timeline is read from the restored state, the way a user handler would know it: the
+// harness handler keeps, in the keyed state of k, an entry p/<t> from the response that registers (k,t) (t later than
+// the watermark it was told) until the response to TimerExpired (k,t), which deletes it. Every Restore /
+// Redeploy-from-checkpoint is followed by one probe event per key (a keyed event whose response does nothing); the
+// p entries in the KeyStates of those calls are the timers pending at the checkpoint - wherever the implementation
+// cut it relative to the handler calls around the barriers. (The cut "when OperatorCheckpointComplete is called" is
+// kept for comparison, counter cut_differs_from_report, and used when probing is switched off.) The probes are also
+// the "keyed events before the first watermark of the new deployment" of C11: they must be told the epoch.
 //
 // Differences between the model's and the code's batch boundaries are counted
 // (delivery_drift), nothing else.
@@ -98,14 +106,16 @@ type obRun struct {
 	bar map[int]bool // runners whose barrier of the open checkpoint was sent
 
 	// ledger
-	pending map[tk]string         // -> where it comes from (for the message)
+	pending map[tk]string // -> where it comes from (for the message)
 	snaps   map[uint64]map[tk]string
+	marks   map[tk]bool // p/<t> entries seen in the KeyStates of the probe calls
 	lastT   int
 	wm      int // Min(up) of the step being executed
 
 	bi, si int
 	res    *mbt.Result
 	stop   bool // a violation was recorded: the behaviour is over
+	probes bool
 }
 
 func (r *obRun) viol(p, what string, exp, obs any) {
@@ -171,10 +181,24 @@ func (r *obRun) send(sr int, ev *workerpb.Event) {
 
 func (r *obRun) respond(c *handlerCall) {
 	resp := &handlerpb.ProcessEventBatchResponse{}
+	told := c.req.Watermark.AsTime()
+	put := func(key []byte, m *handlerpb.StateMutation) *handlerpb.KeyResult {
+		return &handlerpb.KeyResult{Key: key, StateMutationNamespaces: []*handlerpb.StateMutationNamespace{{Namespace: "p", Mutations: []*handlerpb.StateMutation{m}}}}
+	}
 	for _, ev := range c.req.Events {
 		if ke := ev.GetKeyedEvent(); ke != nil && len(ke.Value) == 1 {
-			resp.KeyResults = append(resp.KeyResults, &handlerpb.KeyResult{Key: ke.Key,
-				NewTimers: []*timestamppb.Timestamp{timestamppb.New(r.c.tm(int(ke.Value[0])))}})
+			t := int(ke.Value[0])
+			kr := &handlerpb.KeyResult{Key: ke.Key, NewTimers: []*timestamppb.Timestamp{timestamppb.New(r.c.tm(t))}}
+			if r.c.tm(t).After(told) { // the handler's own record of its pending timers
+				kr = put(ke.Key, &handlerpb.StateMutation{Mutation: &handlerpb.StateMutation_Put{Put: &handlerpb.PutMutation{Key: []byte{byte(t)}, Value: []byte("1")}}})
+				kr.NewTimers = []*timestamppb.Timestamp{timestamppb.New(r.c.tm(t))}
+			}
+			resp.KeyResults = append(resp.KeyResults, kr)
+		}
+		if te := ev.GetTimerExpired(); te != nil {
+			if x, raw := r.c.toTk(te.Key, te.Timestamp.AsTime()); raw == "" {
+				resp.KeyResults = append(resp.KeyResults, put(te.Key, &handlerpb.StateMutation{Mutation: &handlerpb.StateMutation_Delete{Delete: &handlerpb.DeleteMutation{Key: []byte{byte(x.T)}}}}))
+			}
 		}
 	}
 	c.resp <- resp
@@ -189,10 +213,26 @@ func (r *obRun) judge(call *handlerCall, got *[]obItem) {
 			told.UTC().Format(time.RFC3339Nano), c.tm(r.wm).UTC().Format(time.RFC3339Nano), r.wm), nil, nil)
 		return
 	}
+	for _, ks := range call.req.KeyStates {
+		k := c.modelKey(ks.Key)
+		for _, ns := range ks.StateEntryNamespaces {
+			if ns.Namespace != "p" || k == 0 {
+				continue
+			}
+			for _, e := range ns.Entries {
+				if len(e.Key) == 1 {
+					r.marks[tk{k, int(e.Key[0])}] = true
+				}
+			}
+		}
+	}
 	var reg []tk
 	for _, ev := range call.req.Events {
 		if ke := ev.GetKeyedEvent(); ke != nil {
 			k := c.modelKey(ke.Key)
+			if k != 0 && len(ke.Value) == 2 {
+				continue // probe
+			}
 			if k == 0 || len(ke.Value) != 1 {
 				r.viol(r.prop, fmt.Sprintf("the handler was given a keyed event that was never sent: key %q", ke.Key), nil, nil)
 				return
@@ -356,7 +396,8 @@ func replayOpBatch(bi int, beh []mbt.Step, c *config, in *mbt.Input, prop string
 		return def
 	})
 	defer verifhook.Install(nil, nil)
-	r := &obRun{c: c, prop: prop, dir: dir, maxSize: in.CfgInt("BatchMax", 2), pending: map[tk]string{}, snaps: map[uint64]map[tk]string{}, bi: bi, res: res}
+	r := &obRun{c: c, prop: prop, dir: dir, maxSize: in.CfgInt("BatchMax", 2), pending: map[tk]string{}, snaps: map[uint64]map[tk]string{},
+		marks: map[tk]bool{}, probes: in.CfgBool("Probe", true), bi: bi, res: res}
 	defer r.retire()
 	if err := r.bootNew(nil); err != nil {
 		return fmt.Errorf("b%d: deploy: %v", bi, err)
@@ -369,6 +410,41 @@ func replayOpBatch(bi int, beh []mbt.Step, c *config, in *mbt.Input, prop string
 		r.pending = map[tk]string{}
 		for x, w := range s {
 			r.pending[x] = w
+		}
+		return nil
+	}
+	// after a deployment: one probe event per key; from a checkpoint, the restored state tells what is pending
+	probe := func(id uint64, fromCkpt bool) error {
+		if !r.probes {
+			return nil
+		}
+		r.marks = map[tk]bool{}
+		var got []obItem
+		for k := range c.keys {
+			r.send(1, &workerpb.Event{Event: &workerpb.Event_KeyedEvent{KeyedEvent: &handlerpb.KeyedEvent{
+				Key: c.keys[k], Timestamp: timestamppb.New(c.tm(1)), Value: []byte{0xff, 0}}}})
+			if err := r.pump(&got); err != nil {
+				return err
+			}
+		}
+		if err := r.fireTimer(&got); err != nil {
+			return err
+		}
+		if !fromCkpt || r.stop {
+			return nil
+		}
+		same := len(r.marks) == len(r.pending)
+		for x := range r.marks {
+			if _, ok := r.pending[x]; !ok {
+				same = false
+			}
+		}
+		if !same {
+			res.Count("cut_differs_from_report", 1)
+		}
+		r.pending = map[tk]string{}
+		for x := range r.marks {
+			r.pending[x] = fmt.Sprintf("pending at checkpoint %d: the state restored from it holds the handler's record that it registered this timer and was not given its TimerExpired", id)
 		}
 		return nil
 	}
@@ -412,6 +488,9 @@ func replayOpBatch(bi int, beh []mbt.Step, c *config, in *mbt.Input, prop string
 			if err = fromSnap(r.ckpt.CheckpointId); err == nil {
 				err = r.bootNew([]*snapshotpb.OperatorCheckpoint{r.ckpt})
 			}
+			if err == nil {
+				err = probe(r.ckpt.CheckpointId, true)
+			}
 		case "Redeploy":
 			var ck []*snapshotpb.OperatorCheckpoint
 			if st.Bool("ck") {
@@ -426,6 +505,13 @@ func replayOpBatch(bi int, beh []mbt.Step, c *config, in *mbt.Input, prop string
 			if err == nil {
 				r.resetDeployment()
 				err = r.op.HandleDeploy(context.Background(), r.deployReq(ck), &embedded.RecordingSink{})
+			}
+			if err == nil {
+				if ck != nil {
+					err = probe(r.ckpt.CheckpointId, true)
+				} else {
+					err = probe(0, false)
+				}
 			}
 		default:
 			return fmt.Errorf("unknown action %q", a)
